@@ -122,6 +122,8 @@ def load_known(prop=None):
     with open(KNOWN_FILE) as f:
         data = json.load(f)
     out = [e for e in data.get("findings", []) if e.get("status") == "open"]
+    skip = os.environ.get("VP_IGNORE_KNOWN", "").split(",")     # development: is a finding still there?
+    out = [e for e in out if e["id"] not in skip]
     if prop:
         out = [e for e in out if e["property"] == prop]
     return out
